@@ -104,3 +104,70 @@ let () =
         let t = int_of_n total in
         let orig = List.filteri (fun i _ -> i < t) d in
         Printf.sprintf "valid total=%d reenc=%s dump=%s" t (if spec_encode_message m = orig then "same" else "diff") (dump_smsg m))
+
+(* ---- C02 / C12: construction programs and header edits -------------------- *)
+let bytes_of_text (s : string) : n list = List.init (String.length s) (fun i -> n_of_int (Char.code s.[i]))
+let rec pos_of_dec (s : string) : n =
+  (* decimal string -> N, without going through OCaml ints (values up to 2^64-1) *)
+  let ten = n_of_int 10 in
+  let acc = ref N0 in
+  String.iter (fun c -> acc := N.add (N.mul !acc ten) (n_of_int (Char.code c - 48))) s; !acc
+let ty_of_text (s : string) : ty =
+  if String.length s > 0 && s.[0] = '{' then
+    (match parse_sig (bytes_of_text ("a" ^ s)) with Some [TArray t] -> t | _ -> failwith ("bad dict entry type " ^ s))
+  else match parse_sig (bytes_of_text s) with Some [t] -> t | _ -> failwith ("bad single type " ^ s)
+exception Bad_tokens
+let parse_vals (toks : string list) : val0 list =
+  let rest = ref toks in
+  let rec seq (closer : string option) : val0 list =
+    match !rest with
+    | [] -> if closer = None then [] else raise Bad_tokens
+    | t :: r ->
+        rest := r;
+        if Some t = closer then []
+        else begin
+          let tail s = String.sub s 1 (String.length s - 1) in
+          let v =
+            match t.[0] with
+            | 'y' | 'b' | 'n' | 'q' | 'i' | 'u' | 'x' | 't' | 'd' | 'h' -> VNum (n_of_int (Char.code t.[0]), pos_of_dec (tail t))
+            | 's' | 'o' | 'g' -> VStr (n_of_int (Char.code t.[0]), bytes_of_hex (tail t))
+            | 'A' -> let et = ty_of_text (tail t) in let vs = seq (Some "]") in VArr (et, vs)
+            | '(' -> VStruct (seq (Some ")"))
+            | '{' -> (match seq (Some "}") with [k; x] -> VDictE (k, x) | _ -> raise Bad_tokens)
+            | 'V' -> let ct = ty_of_text (tail t) in (match seq (Some ";") with [x] -> VVar (ct, x) | _ -> raise Bad_tokens)
+            | _ -> raise Bad_tokens in
+          v :: seq closer
+        end in
+  seq None
+let field_code = function
+  | "path" -> 1 | "iface" -> 2 | "member" -> 3 | "err" -> 4 | "rs" -> 5 | "dest" -> 6 | "sender" -> 7 | "ci" -> 10 | _ -> -1
+let edit_of (kv : string) : edit =
+  match String.index_opt kv '=' with
+  | None -> raise Bad_tokens
+  | Some i ->
+      let k = String.sub kv 0 i and v = String.sub kv (i + 1) (String.length kv - i - 1) in
+      if k = "strip" then EStrip
+      else if k = "rs" then ESet (n_of_int 5, VNum (n_of_int 117, pos_of_dec v))
+      else
+        let c = field_code k in
+        if c < 0 then raise Bad_tokens
+        else if v = "~" then EDel (n_of_int c)
+        else ESet (n_of_int c, VStr (n_of_int (if c = 1 || c = 10 then 111 else 115), bytes_of_hex v))
+let () =
+  reg "build" (fun (ty :: fl :: ser :: setters :: toks) ->
+    let edits = List.map edit_of (List.filter (fun x -> x <> "") (String.split_on_char ',' setters)) in
+    let body = parse_vals toks in
+    let m = build true (n_of_int (int_of_string ty)) (n_of_int (int_of_string fl)) (pos_of_dec ser) edits body in
+    let le = spec_encode_message m in
+    let be = spec_encode_message (swap_order m) in
+    let valid = match spec_decode_message le with Some (_, t) when int_of_n t = List.length le -> "1" | _ -> "0" in
+    Printf.sprintf "bytes=%s dump=%s specvalid=%s be=%s copy=%s" (hex_of_bytes le) (dump_smsg m) valid (hex_of_bytes be)
+      (hex_of_bytes (spec_encode_message (copy_msg m))));
+  reg "edit" (fun (h :: ops) ->
+    match spec_decode_message (bytes_of_hex h) with
+    | None -> "corrupt"
+    | Some (m, _) ->
+        if ops = [] then hex_of_bytes (spec_encode_message m)
+        else
+          let cur = ref m in
+          String.concat "|" (List.map (fun op -> cur := apply_edit !cur (edit_of op); hex_of_bytes (spec_encode_message !cur)) ops))
